@@ -117,7 +117,7 @@ func (eng *Engine) verifyFunc(fn *ssa.Function, props []string) (fc *FnCtx, err 
 		}
 		// trusted axioms (facts about dependencies' globals, e.g. io.EOF != nil) hold in the entry state
 		for _, ax := range eng.contracts.Axioms {
-			if !axiomRelevant(ax, fn) || !axiomInScope(ax, props) { // axiomInScope: ext_lemma_axioms.go
+			if !axiomRelevant(ax, fn) || !axiomInScope(ax, props) || !fc.axiomWhen(ax, fn, pass) { // axiomInScope: ext_lemma_axioms.go; axiomWhen: ext_kviter.go
 				continue
 			}
 			aenv := &SpecEnv{fc: fc, vars: map[string]SV{}, cur: st, old: st, pkg: eng.pkgOfSpec(&FuncSpec{Pkg: ax.Pkg})}
@@ -199,6 +199,7 @@ func (fc *FnCtx) preamble() string {
 			fmt.Fprintf(&b, "(assert (forall ((b (Array Int Int)) (o Int) (n Int)) (! (>= (%s b o n) 1) :pattern ((%s b o n)))))\n", u, u)
 		}
 	}
+	b.WriteString(fc.kvIdAxiom()) // ext_kviter.go: one numbering of byte strings for keys and values
 	if d := fc.tc.strDistinct(); d != "" {
 		b.WriteString(d + "\n")
 	}
